@@ -451,6 +451,20 @@ func symBinop(op token.Token, t types.Type, x, y value) value {
 		if xt.op == "const" && xt.val.Sign() == 0 {
 			return mkSym(k, yt)
 		}
+		// x | 2^j for a non-negative x: x + 2^j*(1 - bit_j(x)), bit_j(x) = (x div 2^j) mod 2
+		if op == token.OR {
+			ct, vt := yt, xt
+			if xt.op == "const" {
+				ct, vt = xt, yt
+			}
+			if ct.op == "const" && ct.val.Sign() > 0 && new(big.Int).And(ct.val, new(big.Int).Sub(ct.val, big.NewInt(1))).Sign() == 0 && vt.lo != nil && vt.lo.Sign() >= 0 {
+				u64 := types.Typ[types.Uint64]
+				q := symBinop(token.QUO, u64, mkSym(types.Uint64, vt), concretize(types.Uint64, tConst(ct.val)))
+				b := symBinop(token.REM, u64, q, uint64(2))
+				bt := termOf(b)
+				return mkSym(k, wrapTo(k, tSub(tAdd(vt, tConst(ct.val)), tMulC(bt, ct.val))))
+			}
+		}
 	case token.AND:
 		if yt.op == "const" && yt.val.Sign() == 0 || xt.op == "const" && xt.val.Sign() == 0 {
 			return concretize(k, tInt(0))
